@@ -135,6 +135,27 @@ def tables_for(rng, n):
     return out
 
 
+_RB = __import__('re').compile(r'(?P<bond>[-=#:/\\$])?(?:(?P<atom>\[[^\]]*\]|Br|Cl|[A-Za-z*])|(?P<ring>%\d\d|\d)|(?P<par>[()]))|(?P<dot>\.)')
+
+
+def ring_bond_mismatch(x):
+    """the two ends of a ring closure carry different explicit bond symbols (not both of them / or \\): the rejection the
+    property text calls 'mismatched ring closures'; judged on the text alone"""
+    open_ = {}
+    for m in _RB.finditer(x):
+        r = m.group('ring')
+        if not r:
+            continue
+        b = m.group('bond')
+        if r in open_:
+            a = open_.pop(r)
+            if a is not None and b is not None and a != b and not (a in '/\\' and b in '/\\'):
+                return True
+        else:
+            open_[r] = b
+    return False
+
+
 def blossom_class(x):
     """known-finding classifier computed by the MODEL: on the pruned aromatic graph of x the library's
     augmenting search (faithfully modelled, CPython set order included) returns something that is not a
